@@ -6,9 +6,11 @@
    `max` references (owner in files, kind in kinds, path in paths), references grouped by owner
    and, inside a file, in the order the template syntax wants (extends, imports, renders), in
    which every reference belongs to a file reachable from the entry file (a reference of an
-   unreachable file changes nothing).  Tier 1: <= 3 files, <= 3 references.  Tier 2: the same
-   layouts with richer kinds/paths, 4-file layouts with <= 4 references, 5 references over a
-   small alphabet.                                                                               *)
+   unreachable file changes nothing).  Tier 1: 3 layouts of 3 files (entry at depth 0, 1, 2) with
+   <= 3 references over 3 kinds x 4 path forms, and every single reference (4 kinds x all path
+   forms, valid and invalid) from depth 0, 1, 2.  Tier 2: the same layouts with 4 kinds x 8 path
+   forms, 4-file layouts with <= 4 references, 5 references over a small alphabet, all pairs of
+   valid path forms.                                                                               *)
 EXTENDS Loader, Json, SequencesExt
 CONSTANTS Tier
 
@@ -37,9 +39,9 @@ KE == <<"extends", "render", "renderd">>
 All5 == <<A, B, DA, DB, DEA>>
 Fams ==
   IF Tier = 1 THEN
-    << Fam(<<A, B, DA>>, A, K3, PRootMix \ {<<"..", "..", "b.html">>}, 3),
-       Fam(<<A, DA, DEA>>, DA, KI, PMidMix \ {<<".", "a.html">>}, 3),
-       Fam(<<B, DB, DEA>>, DEA, KE, PDeepMix \ {<<"", "d", "e", "a.html">>}, 3),
+    << Fam(<<A, B, DA>>, A, K3, {<<"b.html">>, <<"", "a.html">>, <<"d", "a.html">>, <<"..", "a.html">>}, 3),
+       Fam(<<A, DA, DEA>>, DA, KI, {<<"e", "a.html">>, <<"..", "a.html">>, <<"..", "..", "a.html">>, <<"", "d", "a.html">>}, 3),
+       Fam(<<B, DB, DEA>>, DEA, KE, {<<"..", "b.html">>, <<"..", "..", "b.html">>, <<"..", "..", "..", "b.html">>, <<"", "d", "e", "a.html">>}, 3),
        Fam(All5, A, K4, PAll, 1), Fam(All5, DA, K4, PAll, 1), Fam(All5, DEA, K4, PAll, 1),
        Fam(<<A>>, B, K3, {}, 0), Fam(<<DA>>, A, K3, {}, 0) >>
   ELSE
